@@ -596,7 +596,9 @@ impl CasObjectInfoV1 {
         let mut boundary_section_offset_from_end = read_u32(reader)?;
 
         // add 4 bytes to offset from info_length at the end
-        boundary_section_offset_from_end += size_of::<u32>() as u32;
+        boundary_section_offset_from_end = boundary_section_offset_from_end
+            .checked_add(size_of::<u32>() as u32)
+            .ok_or_else(|| CasObjectError::FormatError(anyhow!("Xorb Invalid: boundary_section_offset_from_end out of range.")))?;
         reader.seek(SeekFrom::End(-(boundary_section_offset_from_end as i64)))?;
 
         let mut counting_reader = countio::Counter::new(reader);
@@ -621,11 +623,19 @@ impl CasObjectInfoV1 {
 
         let num_chunks_boundaries_section = read_u32(r)?;
 
-        s.chunk_boundary_offsets.resize(num_chunks_boundaries_section as usize, 0);
-        read_u32s(r, &mut s.chunk_boundary_offsets)?;
+        // The declared count is untrusted: bound the preallocation and read entry by entry, as in
+        // the full deserializer, so that a corrupt count ends in a read error and not in a giant allocation.
+        s.chunk_boundary_offsets
+            .reserve(prealloc_num_chunks(num_chunks_boundaries_section as usize));
+        for _ in 0..num_chunks_boundaries_section {
+            s.chunk_boundary_offsets.push(read_u32(r)?);
+        }
 
-        s.unpacked_chunk_offsets.resize(num_chunks_boundaries_section as usize, 0);
-        read_u32s(r, &mut s.unpacked_chunk_offsets)?;
+        s.unpacked_chunk_offsets
+            .reserve(prealloc_num_chunks(num_chunks_boundaries_section as usize));
+        for _ in 0..num_chunks_boundaries_section {
+            s.unpacked_chunk_offsets.push(read_u32(r)?);
+        }
 
         // Now the final parts here.
         s.num_chunks = read_u32(r)?;
